@@ -46,6 +46,8 @@ def spawn_shards(mod, tier, seed, nshards, cases, tmp, ext_path, flavour,
             extra = {}
             if hasattr(mod, "shard_env"):
                 extra = mod.shard_env(tier, s, tmp) or {}
+            if s == 0 and os.environ.get("QV_NO_LINECOV") != "1":
+                extra = dict(extra, QV_LINECOV="1")
             env = boot.child_env(flavour, ext_path, extra)
             cmd = [PY, "-m", "qvmon.worker", "--prop", mod.ID, "--tier", tier,
                    "--seed", str(seed), "--shard", str(s), "--nshards", str(nshards),
@@ -157,6 +159,54 @@ def suite_run(pid, seed, tmp, ext_path, flavour):
     return viol, cov, inc
 
 
+def executable_lines(path):
+    """line numbers that start an instruction somewhere in the file (docstrings and blank lines excluded)"""
+    import types
+    try:
+        with open(path) as f:
+            code = compile(f.read(), path, "exec")
+    except (OSError, SyntaxError):
+        return set()
+    out, todo = set(), [(code, False)]
+    while todo:
+        c, is_func = todo.pop()
+        if is_func:      # module and class bodies run at import time, before monitoring starts: functions only
+            for _, _, ln in c.co_lines():
+                if ln is not None and ln != c.co_firstlineno:
+                    out.add(ln)
+        for k in c.co_consts:
+            if isinstance(k, types.CodeType):
+                # a class body code object has the class name and builds __qualname__; treat only real functions as such
+                todo.append((k, "__qualname__" not in k.co_names or k.co_name.startswith("<")))
+    return out
+
+
+def anchored_line_coverage(pid, results):
+    """which executable lines of the property's anchored Python files did shard 0 execute (informational)"""
+    lines = None
+    for s, r in results.items():
+        if r.get("res") and r["res"].get("lines") is not None:
+            lines = r["res"]["lines"]
+    if lines is None:
+        return None
+    anchors = []
+    with open(os.path.join(HERE, "properties.jsonl")) as f:
+        for l in f:
+            p = json.loads(l)
+            if p["id"] == pid:
+                anchors = [a for a in p["anchors"]["files"] if a.endswith(".py")]
+    out = {}
+    root = boot.repo_root()
+    for a in anchors:
+        rel = a[len("qubovert/"):] if a.startswith("qubovert/") else a
+        ex = executable_lines(os.path.join(root, a))
+        hit = set(lines.get(rel, []))
+        # module-level statements ran at import, before monitoring started: count only lines inside functions as missed
+        missed = sorted(x for x in ex - hit)
+        out[a] = {"executable": len(ex), "executed": len(ex & hit), "never_executed": missed[:60]}
+    return out
+
+
 def conclude(mod, tier, seed, results, t0, replay=None, tmp=None, extra_cov=None,
              extra_violations=None, extra_inconclusive=None):
     pid = mod.ID
@@ -260,6 +310,9 @@ def conclude(mod, tier, seed, results, t0, replay=None, tmp=None, extra_cov=None
         cov.update(notes)
         if extra_cov:
             cov.update(extra_cov)
+        lc = anchored_line_coverage(pid, results)
+        if lc:
+            cov["anchored_line_coverage_shard0"] = lc
         if hasattr(mod, "evidence_extra"):
             cov.update(mod.evidence_extra(cats, mon, results))
         ev = {
